@@ -79,35 +79,6 @@ fn read_dpage(pager: &Pager, id: u64) -> DPage {
         Err(_) => DPage::None,
     }
 }
-/// real leaf chain from the leftmost leaf: non-empty, later empty, later non-empty?
-fn chain_gap(pager: &Pager, root: u64) -> bool {
-    let mut p = root;
-    for _ in 0..64 {
-        match read_dpage(pager, p) {
-            DPage::Internal { leftmost, .. } => p = leftmost,
-            _ => break,
-        }
-    }
-    let (mut seen_ne, mut seen_gap) = (false, false);
-    for _ in 0..70000 {
-        match read_dpage(pager, p) {
-            DPage::Leaf { cells, right, .. } => {
-                let ne = !cells.is_empty();
-                if seen_gap && ne {
-                    return true;
-                }
-                if right == 0 {
-                    return false;
-                }
-                seen_gap = seen_gap || (seen_ne && !ne);
-                seen_ne = seen_ne || ne;
-                p = right;
-            }
-            _ => return false,
-        }
-    }
-    false
-}
 fn varint_len(n: usize) -> usize {
     let (mut v, mut k) = (n, 1);
     while v >= 0x80 {
@@ -255,7 +226,6 @@ struct Outcome {
     root: u64,
     pages: Vec<DPage>,
     dup: bool,
-    gap: bool,
     /// first direct failure: (op index, class, what)
     fail: Option<(usize, Option<&'static str>, String)>,
     splits: usize,
@@ -270,10 +240,8 @@ fn run_history(h: &History) -> Outcome {
     let keys: Vec<Vec<u8>> = h.keys.iter().map(|k| k.expand()).collect();
     let mut rf = Ref::default();
     let (mut impl_res, mut ref_res) = (Vec::new(), Vec::new());
-    let (mut dup, mut gap) = (false, false);
+    let mut dup = false;
     let mut fail: Option<(usize, Option<&'static str>, String)> = None;
-    gap |= chain_gap(&pager, tree.root().as_u64());
-
     for (i, op) in h.ops.iter().enumerate() {
         let mut check_key: Option<&[u8]> = None;
         let mut mutated = false;
@@ -337,7 +305,7 @@ fn run_history(h: &History) -> Outcome {
                     Err(e) => Res::Err(err_code(&e)),
                 };
                 if res != Res::List(want.clone()) && fail.is_none() {
-                    let class = classify_scan(&res, &want, gap || chain_gap(&pager, tree.root().as_u64()), dup);
+                    let class = classify_scan(dup);
                     fail = Some((i, class, format!("scan from a key returned {} entries, the multimap has {}", res_len(&res), want.len())));
                 }
                 ref_res.push(Res::List(want));
@@ -352,9 +320,6 @@ fn run_history(h: &History) -> Outcome {
                 impl_res.push(Res::Unit);
                 mutated = true; // re-check everything after the reopen
             }
-        }
-        if mutated {
-            gap |= chain_gap(&pager, tree.root().as_u64());
         }
         // direct search: the property itself after every step
         if fail.is_none() && (mutated || check_key.is_some()) {
@@ -373,7 +338,7 @@ fn run_history(h: &History) -> Outcome {
                     Err(e) => Res::Err(err_code(&e)),
                 };
                 if res != Res::List(rf.0.clone()) {
-                    let class = classify_scan(&res, &rf.0, gap, dup);
+                    let class = classify_scan(dup);
                     fail = Some((i, class, format!("full scan returned {} entries / differs, the multimap has {}", res_len(&res), rf.0.len())));
                 }
             }
@@ -395,7 +360,7 @@ fn run_history(h: &History) -> Outcome {
             break;
         }
     }
-    Outcome { impl_res, ref_res, root, pages, dup, gap, fail, splits, depth }
+    Outcome { impl_res, ref_res, root, pages, dup, fail, splits, depth }
 }
 fn res_len(r: &Res) -> usize {
     match r {
@@ -403,14 +368,8 @@ fn res_len(r: &Res) -> usize {
         _ => 0,
     }
 }
-/// a scan that is a strict prefix of what is stored, while the chain has an empty inner leaf,
-/// is K-C26-emptyleaf; any other wrong scan is K-C26-dups only if a key was stored twice
-fn classify_scan(got: &Res, want: &[(Vec<u8>, u64)], gap: bool, dup: bool) -> Option<&'static str> {
-    if let Res::List(l) = got {
-        if gap && l.len() < want.len() && want[..l.len()] == l[..] {
-            return Some("K-C26-emptyleaf");
-        }
-    }
+/// a wrong scan is K-C26-dups only if a key was stored twice at the same time
+fn classify_scan(dup: bool) -> Option<&'static str> {
     if dup { Some("K-C26-dups") } else { None }
 }
 
@@ -598,7 +557,8 @@ fn corpus() -> Vec<History> {
         keys: vec![k900(b"a")],
         ops: (1..=10).map(|i| Op::Ins(0, i)).chain([Op::Look(0), Op::Scan(0, 100), Op::Del(0, 1), Op::Reopen, Op::Scan(0, 100)]).collect(),
     });
-    // K-C26-emptyleaf: 30 distinct keys in order, the second leaf emptied, a full scan stops there
+    // regression of the repaired K-C26-emptyleaf (/repo ff9d0a3): 30 distinct keys in order, the second leaf emptied;
+    // a full scan used to stop there
     v.push(History {
         profile: "corpus",
         keys: (0..30u16).map(|i| k900(&i.to_be_bytes())).collect(),
@@ -671,10 +631,10 @@ fn main() {
     quiet_panics();
     let quick = a.tier == "quick";
     let mut r = Rng::new(a.seed);
-    let mut cw = CaseWriter::new(&a.out, "Corr.C26", 12);
+    let mut cw = CaseWriter::new(&a.out, "Corr.C26", 6);
     let bsdir = a.out.join("bs");
     std::fs::create_dir_all(&bsdir).unwrap();
-    let mut bw = CaseWriter::new(&bsdir, "Corr.C26bs", 2000);
+    let mut bw = CaseWriter::new(&bsdir, "Corr.C26bs", 750);
     let mut rep = Report::new(&a.out);
     let mut hist = BTreeMap::<String, u64>::new();
     let mut nontrivial = BTreeSet::<Vec<u8>>::new();
@@ -696,7 +656,7 @@ fn main() {
         *hist.entry(format!("profile:{}", h.profile)).or_insert(0) += 1;
         *hist.entry(format!("depth:{}", o.depth)).or_insert(0) += 1;
         *hist.entry(format!("pages:{}", match o.pages.len() { 0..=1 => "1", 2..=4 => "2-4", 5..=16 => "5-16", 17..=64 => "17-64", _ => "65+" })).or_insert(0) += 1;
-        *hist.entry(format!("class:dup={} gap={} failed_op={}", o.dup, o.gap, o.impl_res.iter().any(|x| matches!(x, Res::Err(_) | Res::Panic)))).or_insert(0) += 1;
+        *hist.entry(format!("class:dup={} failed_op={}", o.dup, o.impl_res.iter().any(|x| matches!(x, Res::Err(_) | Res::Panic)))).or_insert(0) += 1;
         for op in &h.ops {
             *hist.entry(format!("op:{}", match op { Op::Ins(..) => "insert", Op::Del(..) => "delete", Op::Look(..) => "lookup", Op::Scan(..) => "scan", Op::Reopen => "reopen" })).or_insert(0) += 1;
         }
@@ -714,18 +674,17 @@ fn main() {
             nontrivial.insert(sig);
         }
         cw.push(format!(
-            "{{| keytab := {}; cops := {}; impl_res := {}; ref_res := {}; impl_root := {}; impl_pages := {}; impl_dup := {}; impl_gap := {} |}}",
+            "{{| keytab := {}; cops := {}; impl_res := {}; ref_res := {}; impl_root := {}; impl_pages := {}; impl_dup := {} |}}",
             coq_list(&h.keys, coq_keyspec),
             coq_list(&h.ops, coq_op),
             coq_list(&o.impl_res, |x| coq_res(x, &kidx)),
             coq_list(&o.ref_res, |x| coq_res(x, &kidx)),
             coq_n(o.root as u128),
             coq_list(&o.pages, |p| coq_page(p, &kidx)),
-            coq_bool(o.dup),
-            coq_bool(o.gap)
+            coq_bool(o.dup)
         ));
         if idx < nc + 1 {
-            rep.case(idx, json!({"history": js_history(&h), "root": o.root, "pages": o.pages.len(), "dup": o.dup, "gap": o.gap}));
+            rep.case(idx, json!({"history": js_history(&h), "root": o.root, "pages": o.pages.len(), "dup": o.dup}));
         }
         if let Some((at, class, what)) = &o.fail {
             fails += 1;
@@ -736,7 +695,7 @@ fn main() {
     cw.flush();
 
     // the probe sequence of slice::binary_search_by on arbitrary comparison lists
-    let nbs = if quick { 4000 } else { 40000 };
+    let nbs = if quick { 1500 } else { 40000 };
     for i in 0..nbs {
         let len = if i < 600 { i / 15 } else { r.below(70) as usize };
         let v: Vec<Ordering> = match r.below(3) {
